@@ -16,6 +16,7 @@ var vrfEntries = map[string]func(){
 	"VrfC02Worker": VrfC02Worker,
 	"VrfC02Direct": VrfC02Direct,
 	"VrfC02Age":    VrfC02Age,
+	"VrfC02Hooks":  VrfC02Hooks,
 }
 
 func vrfCid(i int) cid.Cid {
